@@ -603,7 +603,7 @@ fn main() {
         });
     }
 
-    let per_shard = mon.by_tier(8000u64, 500_000);
+    let per_shard = mon.by_tier(24_000u64, 500_000);
     vkit::run_shards(mon.shards(), mon.seed, |_i, mut rng| {
         let rt = checks::rt(true);
         rt.block_on(async {
